@@ -21,6 +21,7 @@ package qbft
 
 //@ func (d Definition) Quorum
 //@ props C01 C02 C03 C04
+//@ nopanic
 //@ mode bv
 //@ requires 1 <= d.Nodes && d.Nodes <= 4096
 //@ ensures result == (2*d.Nodes + 2) / 3
@@ -28,6 +29,7 @@ package qbft
 
 //@ func (d Definition) Faulty
 //@ props C01 C02 C03 C04
+//@ nopanic
 //@ mode bv
 //@ requires 1 <= d.Nodes && d.Nodes <= 4096
 //@ ensures result == (d.Nodes - 1) / 3
@@ -179,6 +181,7 @@ package qbft
 //@ loop 2 invariant forall(k, 0, $i, resp[k] == highestBySource[$ks[k]])
 
 //@ func classify
+//@ assume-nopanic flatten: panics only with a "bug:" message when a justification itself carries justifications, which newMsg never builds; Run recovers "bug" panics
 //@ props C02 C03 C04
 //@ nopanic
 //@ requires nodesOK(d)
@@ -237,6 +240,7 @@ package qbft
 
 //@ func getPrepareQuorums
 //@ props C04
+//@ nopanic
 //@ pure
 //@ requires nodesOK(d)
 //@ ensures forall(p, 0, len(result), len(result[p]) >= quorum(d) && distinctSources(result[p]) && allOf(result[p], MsgPrepare, result[p][0].Round(), result[p][0].Value()))
@@ -248,6 +252,7 @@ package qbft
 
 //@ func quorumNullPrepared
 //@ props C04
+//@ nopanic
 //@ pure
 //@ requires nodesOK(d)
 //@ ensures r1 <==> len(r0) >= quorum(d)
@@ -255,6 +260,7 @@ package qbft
 
 //@ func filterRoundChange
 //@ props C04
+//@ nopanic
 //@ pure
 //@ ensures result == filterMsgs(msgs, MsgRoundChange, round, nil, nil, nil)
 //@ ensures distinctSources(result) && forall(k, 0, len(result), result[k].Type() == MsgRoundChange && result[k].Round() == round)
